@@ -54,6 +54,7 @@ def parseCmpTy (e : Env) (s : Sexp) : Option CmpTy :=
   match s with
   | .atom "int64" => some .int64
   | .atom "decimal" => some .decimal
+  | .atom "float64" => some .float64
   | .atom "textc" => some (.text e.ci)
   | .atom "textd" => some (.text e.bin)
   | .atom "textr" => some (.text rawColl)
